@@ -82,6 +82,15 @@ def check_file(ctx, model, nptdms, data, exhaustive, stats):
     return dis, vio
 
 
+def cut_points(ctx, nptdms, data, n=2):
+    try:
+        last = nptdms.TdmsFile.open(cl.RecordingStream(data))._reader._segments[-1]
+        lo, hi = last.data_position + 1, last.next_segment_pos - 1
+    except Exception:
+        return []
+    return sorted(set(ctx.rnd.randint(lo, hi) for _ in range(n))) if lo <= hi else []
+
+
 def run(ctx):
     nptdms = ctx.nptdms()
     model = ctx.get_model() if ctx.build_ok else None
@@ -95,6 +104,15 @@ def run(ctx):
         d, v = check_file(ctx, model, nptdms, data, ctx.tier == "thorough" or i % 4 == 0, stats)
         disagreements += d
         violations += v
+        # the same file cut inside its last segment's raw data (truncated final chunk): all windows, slices and indices
+        if i % 3 == 0 and len(data) > 40:
+            for k in cut_points(ctx, nptdms, data):
+                stats["truncated_files"] = stats.get("truncated_files", 0) + 1
+                d, v = check_file(ctx, model, nptdms, data[:k], True, stats)
+                for x in v:
+                    x.what = "file cut at byte %d: %s" % (k, x.what)
+                disagreements += d
+                violations += v
         if new and ({"multi-segment", "multi-chunk"} & feats) and any(o["values"] for o in e["content"]):
             nontrivial += 1
         if len(samples) < 2 and len(data) < 300:
@@ -108,7 +126,7 @@ def run(ctx):
     return dict(violations=violations, disagreements=disagreements,
                 coverage=dict(evaluations=ev, distinct_nontrivial=nontrivial,
                               rule=RULE_FILES + "; per channel: windows (off,len) over 0..n+2 incl. None, slices over [-n-2,n+2]∪{None} x steps "
-                                   "{None,±1,±2,±3,±n,0}, all integer indices in [-n-1,n] ascending then descending (cache), exhaustive for small channels; "
+                                   "{None,±1,±2,±3,±n,0}, all integer indices in [-n-1,n] ascending then descending (cache), exhaustive for small channels; every third file additionally cut at 2 offsets inside its last segment's raw data with all requests; "
                                    "distinct_nontrivial counts distinct multi-segment or multi-chunk files with data",
                               samples=samples, files=fs.drawn, requests=stats, feature_counts=dict(sorted(fs.feats.items()))))
 
@@ -123,6 +141,10 @@ def search(ctx, broken, disagreements):
         _, v = check_file(ctx, None, nptdms, data, True, stats)
         if v:
             return v[:1]
+        for k in cut_points(ctx, nptdms, data, 3):
+            _, v = check_file(ctx, None, nptdms, data[:k], True, stats)
+            if v:
+                return v[:1]
     return []
 
 
